@@ -252,6 +252,8 @@ pub struct ChildRun {
     pub failed_commits: Vec<(usize, String, Vec<(Vec<u8>, Option<(u32, u32)>)>)>,
     pub child_failure: Option<(String, String)>,
     pub status: String,
+    /// full commit log of the workload's model (only with WL_C10: operation kinds and timestamps for the version model)
+    pub model_commits: Vec<crate::model::Commit>,
 }
 
 /// Run `wl` on `case` inside `root` (which may already contain a recovered image) under the recorder.
@@ -277,21 +279,7 @@ pub fn run_child(case: &Case, root: &Path, scratch: &Path, faults: Option<&str>,
     // the workload normally takes well under a second; a child that is still there after the limit is killed and
     // reported as "hung" (the callers decide what that means)
     let limit = std::time::Duration::from_secs(std::env::var("VERIF_CHILD_TIMEOUT_S").ok().and_then(|v| v.parse().ok()).unwrap_or(90));
-    let out = crate::util::spawn_child(cmd.stdin(Stdio::null()).stdout(Stdio::piped()).stderr(Stdio::piped())).and_then(|mut c| {
-        let t0 = std::time::Instant::now();
-        loop {
-            match c.try_wait() {
-                Ok(Some(_)) => return c.wait_with_output(),
-                Ok(None) if t0.elapsed() > limit => {
-                    let _ = c.kill();
-                    let _ = c.wait();
-                    return Err(std::io::Error::new(std::io::ErrorKind::TimedOut, format!("hung: the workload process was still running after {} s and was killed", limit.as_secs())));
-                }
-                Ok(None) => std::thread::sleep(std::time::Duration::from_millis(if t0.elapsed().as_millis() < 200 { 2 } else { 20 })),
-                Err(e) => return Err(e),
-            }
-        }
-    });
+    let out = crate::util::spawn_child(cmd.stdin(Stdio::null()).stdout(Stdio::piped()).stderr(Stdio::piped())).and_then(|c| crate::util::wait_child_output(c, limit, "the workload process"));
     let root_s = root.to_string_lossy().to_string();
     if let Ok(dst) = std::env::var("VERIF_DUMP_TRACE") {
         static N: std::sync::atomic::AtomicU32 = std::sync::atomic::AtomicU32::new(0);
@@ -299,8 +287,8 @@ pub fn run_child(case: &Case, root: &Path, scratch: &Path, faults: Option<&str>,
     }
     let trace = std::fs::read(&log).map(|d| parse_trace(&d, &root_s)).unwrap_or_default();
     match out {
-        Err(e) if e.kind() == std::io::ErrorKind::TimedOut => ChildRun { trace, commits: vec![], failed_writes: vec![], failed_commits: vec![], child_failure: None, status: e.to_string() },
-        Err(e) => ChildRun { trace, commits: vec![], failed_writes: vec![], failed_commits: vec![], child_failure: None, status: format!("spawn failed: {e}") },
+        Err(e) if e.kind() == std::io::ErrorKind::TimedOut => ChildRun { trace, commits: vec![], failed_writes: vec![], failed_commits: vec![], child_failure: None, status: e.to_string(), model_commits: vec![] },
+        Err(e) => ChildRun { trace, commits: vec![], failed_writes: vec![], failed_commits: vec![], child_failure: None, status: format!("spawn failed: {e}"), model_commits: vec![] },
         Ok(o) => {
             let text = String::from_utf8_lossy(&o.stdout).to_string();
             let line = text.lines().last().unwrap_or("");
@@ -310,7 +298,8 @@ pub fn run_child(case: &Case, root: &Path, scratch: &Path, faults: Option<&str>,
                     let failed_writes = serde_json::from_value(v.get("failed_writes").cloned().unwrap_or(json!([]))).unwrap_or_default();
                     let child_failure = v.get("failure").and_then(|f| if f.is_null() { None } else { Some((f["class"].as_str().unwrap_or("").to_string(), f["msg"].as_str().unwrap_or("").to_string())) });
                     let failed_commits = serde_json::from_value(v.get("failed_commits").cloned().unwrap_or(json!([]))).unwrap_or_default();
-                    ChildRun { trace, commits, failed_writes, failed_commits, child_failure, status: "ok".into() }
+                    let model_commits = serde_json::from_value(v.get("model_commits").cloned().unwrap_or(json!([]))).unwrap_or_default();
+                    ChildRun { trace, commits, failed_writes, failed_commits, child_failure, status: "ok".into(), model_commits }
                 }
                 _ => {
                     let err = String::from_utf8_lossy(&o.stderr);
@@ -319,7 +308,7 @@ pub fn run_child(case: &Case, root: &Path, scratch: &Path, faults: Option<&str>,
                         Some(i) => lines[i..(i + 2).min(lines.len())].join(" | "),
                         None => lines.iter().rev().take(2).cloned().collect::<Vec<_>>().join(" | "),
                     };
-                    ChildRun { trace, commits: vec![], failed_writes: vec![], failed_commits: vec![], child_failure: None, status: format!("child died ({:?}): {}", o.status, msg.chars().take(300).collect::<String>()) }
+                    ChildRun { trace, commits: vec![], failed_writes: vec![], failed_commits: vec![], child_failure: None, status: format!("child died ({:?}): {}", o.status, msg.chars().take(300).collect::<String>()), model_commits: vec![] }
                 }
             }
         }
@@ -333,12 +322,19 @@ pub struct Marks {
     pub acked: Vec<usize>,
     pub durable: Vec<usize>,
     pub in_recovery: Vec<bool>,
+    /// a table file was created or written since the last step marker: the point lies inside (or right after) a flush or
+    /// a compaction of the current step
+    pub in_flush: Vec<bool>,
+    /// the B+tree version index has been written to since it was last fsynced: an index update is in progress
+    pub index_update_open: Vec<bool>,
 }
 
 pub fn marks_of(trace: &[TraceOp]) -> Marks {
     let n = trace.len();
-    let mut m = Marks { started: vec![0; n + 1], acked: vec![0; n + 1], durable: vec![0; n + 1], in_recovery: vec![false; n + 1] };
+    let mut m = Marks { started: vec![0; n + 1], acked: vec![0; n + 1], durable: vec![0; n + 1], in_recovery: vec![false; n + 1], in_flush: vec![false; n + 1], index_update_open: vec![false; n + 1] };
+    let mut index_open = false;
     let (mut started, mut acked, mut durable) = (0usize, 0usize, 0usize);
+    let mut in_flush = false;
     let mut in_rec = true; // until the first step marker the store is being opened
     for (i, t) in trace.iter().enumerate() {
         if t.op == OP_MARK {
@@ -361,14 +357,29 @@ pub fn marks_of(trace: &[TraceOp]) -> Marks {
                     durable = durable.max(acked);
                     in_rec = true; // the next operations belong to the reopen
                 }
-                ["S", _] => in_rec = false,
+                ["S", _] => {
+                    in_rec = false;
+                    in_flush = false;
+                }
                 _ => {}
             }
         }
         m.started[i + 1] = started;
         m.acked[i + 1] = acked;
         m.durable[i + 1] = durable;
+        if t.op != OP_MARK && (t.p1.ends_with(".sst") || t.p2.ends_with(".sst") || t.p1.ends_with(".bpt")) {
+            in_flush = true;
+        }
         m.in_recovery[i + 1] = in_rec;
+        if t.p1.ends_with(".bpt") {
+            if t.op == OP_WRITE || t.op == OP_FTRUNCATE {
+                index_open = true;
+            } else if t.op == OP_FSYNC {
+                index_open = false;
+            }
+        }
+        m.in_flush[i + 1] = in_flush;
+        m.index_update_open[i + 1] = index_open;
     }
     m
 }
@@ -403,6 +414,59 @@ fn count_files(dir: &Path, ext: &str, nonempty: bool) -> usize {
         }
     }
     n
+}
+
+/// Open the image, run `f` on the open store, close it. Err = (class, message).
+pub fn open_and_inspect(cfg: &Cfg, db: &Path, rt: &tokio::runtime::Runtime, f: &mut dyn FnMut(&surrealkv::Tree) -> Result<(), (String, String)>) -> Result<(), (String, String)> {
+    let r = std::panic::catch_unwind(std::panic::AssertUnwindSafe(|| {
+        rt.block_on(async {
+            let o = cfg.options(db, None, true);
+            let tree = match crate::util::build_tree_retry(o) {
+                Ok(t) => t,
+                Err(e) => return Err(("image-not-openable".to_string(), format!("{e:?}"))),
+            };
+            let r = f(&tree);
+            let _ = tree.close().await;
+            drop(tree);
+            for _ in 0..3 {
+                tokio::task::yield_now().await;
+            }
+            r
+        })
+    }));
+    match r {
+        Ok(x) => x,
+        Err(p) => {
+            let msg = if let Some(s) = p.downcast_ref::<&str>() { s.to_string() } else if let Some(s) = p.downcast_ref::<String>() { s.clone() } else { "panic".into() };
+            Err(("recovery-panic".to_string(), msg))
+        }
+    }
+}
+
+/// C10 on an open store: full-range histories (tombstones on/off, forward/backward) and get_at probes at, just below and
+/// just above every version timestamp of every key, against the version model after the first `h` commits.
+pub fn versioned_sweep_on(tree: &surrealkv::Tree, model: &crate::model::Model, h: usize, cfg: &Cfg, stats: &mut Stats) -> Result<(), (String, String)> {
+    use crate::vmodel;
+    let txn = tree.begin_with_mode(surrealkv::Mode::ReadOnly).map_err(|e| ("begin-error".to_string(), format!("{e:?}")))?;
+    let now = 0u64; // retention is unlimited in this stream
+    for tomb in [false, true] {
+        for rev in [false, true] {
+            let q = vmodel::HistQuery { lo: vec![0u8], hi: vec![0xffu8; 9], tombstones: tomb, ts_range: None, limit: None, rev };
+            vmodel::check_history(model, h, cfg, now, &txn, &q, stats)?;
+        }
+    }
+    for k in model.all_keys() {
+        let mut probes: Vec<u64> = vec![0, u64::MAX];
+        for v in model.writes_of(h, &k) {
+            probes.extend([v.ts, v.ts.saturating_sub(1), v.ts.saturating_add(1)]);
+        }
+        probes.sort();
+        probes.dedup();
+        for t in probes {
+            vmodel::check_get_at(model, h, cfg, now, &txn, &k, t, stats)?;
+        }
+    }
+    Ok(())
 }
 
 pub fn open_and_scan(cfg: &Cfg, db: &Path, rt: &tokio::runtime::Runtime, probe: Option<&[Vec<u8>]>) -> Opened {
@@ -515,6 +579,8 @@ pub enum Judge {
     Prefix,
     /// C07: every image opens, a commit made after recovery is not shadowed, and a second open yields the same
     Reopen,
+    /// C10: on every image, time-travel reads and histories equal the version model after a prefix of the commit order
+    History,
 }
 
 fn interesting(t: &TraceOp) -> bool {
@@ -616,6 +682,7 @@ pub fn check_generation(
     let mut fs = base_fs.clone();
     let mut next_point = 0usize;
     let mut candidates = Vec::new();
+    let mut deferred_known: Option<Failure> = None;
     let mut n_process_images: u64 = 0;
     let mut overfull: Option<(usize, (usize, usize, FsState))> = None;
     let mut torn_candidates: Vec<(usize, usize, FsState)> = Vec::new();
@@ -675,7 +742,7 @@ pub fn check_generation(
                 if p > 0 { describe(&run.trace[p - 1]) } else { "start".into() },
                 cm
             );
-            let aux = json!({"generation": gen_no, "point": p, "model": format!("{cm:?}"), "in_recovery": marks.in_recovery[p], "arena_full_allowed": known_f03,
+            let aux = json!({"generation": gen_no, "point": p, "model": format!("{cm:?}"), "in_recovery": marks.in_recovery[p], "in_flush": marks.in_flush[p], "index_update_open": marks.index_update_open[p], "arena_full_allowed": known_f03,
                 "unsynced_files": fs.files.iter().filter(|(_, f)| f.synced < f.data.len()).map(|(k, f)| format!("{k}:{}/{}", f.synced, f.data.len())).collect::<Vec<_>>() });
             match open_and_scan(ctx.cfg, &img.join("db"), ctx.rt, if ctx.judge == Judge::Reopen { Some(&probe_keys[..]) } else { None }) {
                 Opened::Panicked(m) => return Err(fail("recovery-panic", format!("{what}: opening the image panicked: {m}"), aux)),
@@ -723,6 +790,74 @@ pub fn check_generation(
                             }
                             if started - 0 >= 2 {
                                 ctx.stats.inc("prefix_choice_ge2");
+                            }
+                        }
+                        Judge::History => {
+                            // candidates: every prefix whose latest-value state is what the scan returned (several when
+                            // commits do not change the latest values); the version model after one of them must explain
+                            // every history and every get_at. The image is materialised afresh: the checks run right
+                            // after recovery, not after the clean close of the first open.
+                            let hs: Vec<usize> = (0..=started).rev().filter(|h| states[*h] == got).collect();
+                            if hs.is_empty() {
+                                let best = (0..=started).min_by_key(|h| diff_count(&states[*h], &got)).unwrap_or(0);
+                                return Err(fail(
+                                    "recovered-state-not-a-prefix",
+                                    format!("{what}: recovered {} keys; not the state after any prefix of the commit order (closest: after {best} commits, differing in {})", got.len(), explain_diff(&states[best], &got)),
+                                    aux,
+                                ));
+                            }
+                            let mut model = crate::model::Model::new();
+                            for c in run.model_commits.iter() {
+                                model.push(c.clone());
+                            }
+                            let mut last_err: Option<(String, String)> = None;
+                            let mut ok = false;
+                            for h in hs.iter().take(4) {
+                                if fs.materialise(&img, &cut).is_err() {
+                                    ok = true; // cannot judge
+                                    break;
+                                }
+                                let mut st = Stats::default();
+                                match open_and_inspect(ctx.cfg, &img.join("db"), ctx.rt, &mut |tree| versioned_sweep_on(tree, &model, *h, ctx.cfg, &mut st)) {
+                                    Ok(()) => {
+                                        ok = true;
+                                        for k in ["history_ge3", "get_at_non_latest", "history_entries"] {
+                                            if st.has(k) {
+                                                ctx.stats.inc(match k {
+                                                    "history_ge3" => "history_ge3",
+                                                    "get_at_non_latest" => "get_at_non_latest",
+                                                    _ => "history_entries",
+                                                });
+                                            }
+                                        }
+                                        break;
+                                    }
+                                    Err(e) => {
+                                        // keep the explanation for the longest prefix
+                                        if last_err.is_none() {
+                                            last_err = Some(e);
+                                        }
+                                    }
+                                }
+                            }
+                            if !ok {
+                                let (class, msg) = last_err.unwrap_or_default();
+                                let f = fail(&format!("after-recovery/{class}"), format!("{what}: latest values equal the state after {:?} commits, but the versions do not: {msg}", hs), aux);
+                                if cm != CrashModel::Process && marks.index_update_open[p] {
+                                    // known finding F44 (power loss while the B+tree index is being updated in place): counted,
+                                    // reported once at the end of the case, and the enumeration goes on with the next image
+                                    ctx.stats.inc("power_loss_inside_index_update_broke_the_index");
+                                    deferred_known.get_or_insert(f);
+                                    continue;
+                                }
+                                return Err(f);
+                            }
+                            ctx.stats.inc("history_checked_after_recovery");
+                            if marks.in_flush[p] {
+                                ctx.stats.inc("crash_inside_flush_history_checked");
+                            }
+                            if cm != CrashModel::Process {
+                                ctx.stats.inc("power_loss_history_checked");
                             }
                         }
                         Judge::Reopen => {
@@ -822,6 +957,9 @@ pub fn check_generation(
         candidates.push(t);
         ctx.stats.inc("torn_image_offered_for_next_generation");
     }
+    if let Some(f) = deferred_known {
+        return Err(f);
+    }
     Ok((candidates, overfull_idx))
 }
 
@@ -884,6 +1022,9 @@ pub fn run_crash_case(case: &CrashCase, dir: &Path, judge: Judge) -> CaseResult 
     let _ = std::fs::create_dir_all(dir);
     rm_rf(&run_root);
     let mut env: Vec<(&str, &str)> = vec![("WL_NO_SWEEPS", "1")];
+    if judge == Judge::History {
+        env.push(("WL_C10", "1"));
+    }
     if case.arena_full {
         env.push(("WL_ALLOW_ARENA_FULL", "1"));
     }
@@ -983,6 +1124,7 @@ pub fn run_crash_case(case: &CrashCase, dir: &Path, judge: Judge) -> CaseResult 
             Judge::Acked => stats.has("images_with_required_commits") && stats.has("power_loss_images"),
             Judge::Prefix => stats.has("prefix_choice_ge2") && stats.has("power_loss_images"),
             Judge::Reopen => stats.has("reopened_twice") && stats.has("power_loss_images"),
+            Judge::History => stats.has("crash_inside_flush_history_checked") && stats.has("history_ge3"),
         };
     CaseResult { stats, failure, nontrivial }
 }
@@ -1012,10 +1154,28 @@ pub fn crash_strategy(stride: u16, arena_full: bool) -> BoxedStrategy<CrashCase>
         .boxed()
 }
 
+/// Workloads of C10's crash stream: timestamped histories on a versioning-enabled store, no second generation.
+pub fn crash_strategy_c10(stride: u16, vindex: bool) -> BoxedStrategy<CrashCase> {
+    let mut p = crate::props::c10_profile(Some(vindex), false);
+    p.cfg.vlog = None;
+    p.steps = (10, 45);
+    p.step.w = Weights { txn: 50, rotate: 4, flush_oldest: 7, flush_all: 8, compact: 8, reopen: 3, flush_wal: 3, ..Weights::default() };
+    p.step.slots = 1;
+    p.step.ro_frac = 0;
+    (case_strategy(&p), any::<u32>()).prop_map(move |(work, salt)| CrashCase { work, work2: vec![], salt, stride, arena_full: false }).boxed()
+}
+
+pub fn crash_prop_c10(stride: u16, vindex: bool) -> PropDef<CrashCase> {
+    let mut d = crash_prop("C10", Judge::History, stride, false);
+    d.strategy = Arc::new(move || crash_strategy_c10(stride, vindex));
+    d
+}
+
 pub fn crash_prop(id: &'static str, judge: Judge, stride: u16, arena_full: bool) -> PropDef<CrashCase> {
     let rule = match judge {
         Judge::Acked => "case = generated workload (one-shot transactions of 1..6 keys with Eventual / Immediate durability, flush_wal(sync), rotate, flush, compaction rounds, clean reopen, key-window phases; tiny memtables/blocks; vlog on/off) run in a child process under an LD_PRELOAD recorder of every file operation, plus a continuation workload for a second generation. Crash images are ENUMERATED: at every file-operation boundary of the trace (all of them for traces <= 300 operations, otherwise every boundary within 2 operations of a marker / rename / unlink / fsync / open plus a strided sample) one process-crash image (all completed writes kept) and two power-loss images (every file cut to its fsynced length; the last write torn at 1 / 3 / 6 / 7 / half / all-but-one of its bytes). Each image is opened with the real store and scanned; two of the recovered images are continued by the second workload under the recorder and crashed again. Oracle C02: every key must carry the value written by the last commit that was acknowledged before the crash (under power loss: acknowledged with Immediate durability, or before a completed flush_wal(true) / clean close) or by a later commit. Non-trivial: a case with images on which at least one commit was required, including power-loss images. evaluations counts workloads; coverage.totals.n_images counts opened images.",
         Judge::Reopen => "crash stream of C07: workload in a child process under the LD_PRELOAD recorder; process-crash and power-loss images at the selected file-operation boundaries (also inside recovery of a reopen and on second-generation traces). Every image must open, scan without error, accept a probe transaction that overwrites every key the workload ever wrote (visible after recovery or not) followed by 12 single-key commits, read all of them back unshadowed, close cleanly and open a second time with exactly the scanned contents plus the probe and filler writes.",
+        Judge::History => "crash stream of C10: versioning-enabled stores (B+tree version index on in one sub-stream, off in the other; value log on/off), generated timestamped histories (explicit non-decreasing timestamps per key without ties, sets / soft deletes / hard deletes / replaces, one write per key per transaction) with rotate / flush / compaction / reopen steps, run in a child process under the LD_PRELOAD recorder. Process-crash and power-loss images at every file-operation boundary (all of them for traces <= 300 operations, else every boundary near a marker / rename / unlink / fsync / open plus a strided sample), i.e. also at every boundary inside a flush, where the version index is updated in place before the manifest switches. Each image is opened by the real store; its latest values must equal the state after some prefix h of the commit order, and - on a freshly materialised copy, right after recovery - every full-range history (tombstones on/off, forward and backward) and every get_at at, just below and just above every version timestamp must equal the version model after such a prefix. Non-trivial: a case in which an image taken inside a flush or compaction step was checked and a key with >= 3 versions was traversed. evaluations counts workloads; coverage n_images counts opened images.",
         Judge::Prefix => "case and crash-image enumeration as for C02 (workload in a child process under the LD_PRELOAD recorder; process-crash and power-loss images at every selected file-operation boundary, including the middle of WAL records, flushes, manifest replacement, compaction, WAL clean-up and recovery itself; second generation on recovered images). Oracle C03: the full recovered key->value map must EQUAL the state after some prefix of the commit order reported by the workload process (commits started before the crash point), i.e. every transaction is all-or-nothing, no later transaction without all earlier ones, nothing deleted or overwritten inside the prefix reappears. Non-trivial: a case with >= 2 admissible prefixes at some checked image and at least one power-loss image. evaluations counts workloads; coverage.totals.n_images counts opened images.",
     };
     PropDef {
